@@ -741,8 +741,11 @@ func newTimeBucketInfoFromTemplate(newTimeBucketInfo *io.TimeBucketInfo) (err er
 	if _, err2 := os.Stat(newTimeBucketInfo.Path); err2 == nil {
 		return FileAlreadyExists("Can not overwrite file")
 	}
-	// Create the file
-	fp, err := os.OpenFile(newTimeBucketInfo.Path, os.O_CREATE|os.O_RDWR, 0o600)
+	// Create the file under a temporary name and rename it into place once the header is
+	// written and the file has its full size: a crash in the middle must not leave a year file
+	// without header (fatal error at the next startup) or without its data area.
+	tmpPath := newTimeBucketInfo.Path + ".tmp"
+	fp, err := os.OpenFile(tmpPath, os.O_CREATE|os.O_RDWR|os.O_TRUNC, 0o600)
 	if err != nil {
 		return fmt.Errorf("open new time bucket info file %s: %w", newTimeBucketInfo.Path, err)
 	}
@@ -750,10 +753,12 @@ func newTimeBucketInfoFromTemplate(newTimeBucketInfo *io.TimeBucketInfo) (err er
 		if err2 := fp.Close(); err2 != nil {
 			log.Error("failed to close time bucket info file: %w", err2)
 		}
+		if err == nil {
+			if err = os.Rename(tmpPath, newTimeBucketInfo.Path); err != nil {
+				err = UnableToCreateFile(err.Error())
+			}
+		}
 	}()
-	if err != nil {
-		return UnableToCreateFile(err.Error())
-	}
 	if err = io.WriteHeader(fp, newTimeBucketInfo); err != nil {
 		return UnableToWriteHeader(err.Error())
 	}
